@@ -9,7 +9,7 @@ from vt.shapes import Sym, Tup, Lst, Cat, Const, Idx, Slc, Cond, DictT, NONE, Op
 from vt.runner import where, AnalysisError
 from rules import common
 from rules.C11 import lexer_model
-from rules.C17 import shapes, dialect
+from rules.C17 import shapes, dialect, dialect_list
 
 EXPLANATION = (
     "Abstract interpretation of every grammar action (p_* body) for every production alternative of the three "
@@ -73,8 +73,7 @@ REORDER_OK = {('import', ('importIdentifiers', 'FROM', 'moduleName')): 'consumer
 
 
 def all_shapes(chk):
-    ship = shipped_dialects(chk.model)
-    return [(n, shapes(chk.model, ship[n])) for n in ('smiV2', 'smiV1', 'smiV1Relaxed')]
+    return [(n, shapes(chk.model, o)) for n, o in dialect_list(chk)]
 
 
 def carries_value(gs, sym):
